@@ -1,6 +1,7 @@
 /-
 Helper lemmas for C20: every command emitted by every setter / getter of the PPG3204 model is in range.
 -/
+import Mathlib.Data.List.Perm.Subperm
 import OptiVerif.Lemmas.PpgData
 
 namespace OptiVerif.Ppg
@@ -168,20 +169,35 @@ theorem dataCmds_in_range (ch : Int) (hch : ChOk ch) (a : Int) (bits : List Nat)
   rw [gen_chunk] at hl
   exact ⟨hch, hl, rfl, header_ok_small _ hl⟩
 
+theorem blocksFor_in_range (start : Int) (cs : List Int) (perCh : List (List Nat)) (hcs : ∀ c ∈ cs, ChOk c) :
+    ∀ c ∈ blocksFor start cs perCh, InRange c := by
+  intro c hc
+  unfold blocksFor at hc
+  simp only [List.mem_flatten] at hc
+  obtain ⟨l, hl, hcl⟩ := hc
+  obtain ⟨ch, hch, bits, _, rfl⟩ := mem_zipWith _ _ _ _ hl
+  exact dataCmds_in_range ch (hcs ch hch) start bits c hcl
+
 theorem setData_in_range (d : DataArg) (start : Int) (chs : Chs) (o : Out) (h : setData d start chs = .ok o) :
     ∀ c ∈ o.cmds, InRange c := by
-  intro c hc
-  unfold setData at h
-  simp only at h
-  split at h
-  · exact absurd h (by simp)
-  · rename_i rows _
-    simp only [Except.ok.injEq] at h
+  have hcs := checkChannels_mem chs
+  cases d with
+  | flat xs =>
+    simp only [setData, Except.ok.injEq] at h
     subst h
-    simp only [List.mem_flatten] at hc
-    obtain ⟨l, hl, hcl⟩ := hc
-    obtain ⟨ch, hch, bits, _, rfl⟩ := mem_zipWith _ _ _ _ hl
-    exact dataCmds_in_range ch (checkChannels_mem chs ch hch) start bits c hcl
+    exact blocksFor_in_range _ _ _ hcs
+  | rows rs =>
+    cases rs with
+    | nil =>
+      simp only [setData, Except.ok.injEq] at h
+      subst h
+      exact blocksFor_in_range _ _ _ hcs
+    | cons r rest =>
+      simp only [setData] at h
+      split_ifs at h with hall <;>
+        (simp only [Except.ok.injEq] at h
+         subst h
+         exact blocksFor_in_range _ _ _ hcs)
 
 /-- every request: whatever is emitted is in range -/
 theorem emit_in_range (r : Request) (o : Out) (h : emit r = .ok o) : ∀ c ∈ o.cmds, InRange c := by
@@ -256,24 +272,14 @@ theorem emit_ok (r : Request) (h : WellTyped r) : ∃ o, emit r = .ok o := by
     | flat xs => exact ⟨_, rfl⟩
     | rows rs =>
       obtain ⟨n, hn⟩ := h
-      simp only [emit, setData]
-      generalize hrs : (if decide ((MAX_MEMORY_LEN : Int) - s + 1 < (rs.length : Int)) = true
-        then pyTake ((MAX_MEMORY_LEN : Int) - s + 1) rs else rs) = rs'
-      have hsub : ∀ r ∈ rs', r.length = n := by
-        intro r hr
-        rw [← hrs] at hr
-        split_ifs at hr
-        · unfold pyTake at hr
-          split_ifs at hr <;> exact hn r (List.mem_of_mem_take hr)
-        · exact hn r hr
-      cases rs' with
+      cases rs with
       | nil => exact ⟨_, rfl⟩
       | cons r rest =>
         have hall : (rest.all fun r' => r'.length == r.length) = true := by
           simp only [List.all_eq_true, beq_iff_eq]
           intro r' hr'
-          rw [hsub r' (List.mem_cons_of_mem _ hr'), hsub r List.mem_cons_self]
-        simp only [hall, if_true]
+          rw [hn r' (List.mem_cons_of_mem _ hr'), hn r List.mem_cons_self]
+        simp only [emit, setData, hall, if_true]
         exact ⟨_, rfl⟩
   | get q c => exact ⟨_, rfl⟩
   | getFreq => exact ⟨_, rfl⟩
@@ -369,6 +375,12 @@ theorem getData_ok (m : Mem) (size start : Int) (chs : Chs) : ∃ o, getData m s
 
 /-! ### set_data followed by get_data -/
 
+theorem blocksFor_replicate (start : Int) (cs : List Int) (B : List Nat) :
+    blocksFor start cs (List.replicate cs.length B) =
+      (cs.map (fun ch => dataCmds ch start (chunks MAX_CHUNK_LEN B))).flatten := by
+  unfold blocksFor
+  rw [zipWith_replicate_right (fun ch bits => dataCmds ch start (chunks MAX_CHUNK_LEN bits)) B cs]
+
 theorem setData_flat_eq (xs : List Int) (start : Int) (chs : Chs)
     (h4 : (xs.length : Int) ≤ 2 ^ 21 - start + 1) :
     setData (.flat xs) start chs = .ok ⟨((checkChannels chs).1.map
@@ -378,11 +390,7 @@ theorem setData_flat_eq (xs : List Int) (start : Int) (chs : Chs)
     simp only [gen_memory]
     norm_num at h4 ⊢
     omega
-  simp only [hw, Bool.false_eq_true, if_false, Bool.or_false]
-  congr 2
-  have := zipWith_replicate_right (fun ch bits => dataCmds ch start (chunks MAX_CHUNK_LEN bits))
-    (xs.map bit) (checkChannels chs).1
-  rw [this]
+  simp only [hw, Bool.false_eq_true, if_false, Bool.or_false, blocksFor_replicate]
 
 theorem roundtrip (m : Mem) (xs : List Int) (start : Int) (chs : Chs)
     (h1 : 1 ≤ start) (h2 : start ≤ 2 ^ 21) (h3 : 1 ≤ xs.length) (h4 : (xs.length : Int) ≤ 2 ^ 21 - start + 1) :
@@ -407,6 +415,156 @@ theorem roundtrip (m : Mem) (xs : List Int) (start : Int) (chs : Chs)
     exact norm_bit x
   · rw [hw, getArgs_id _ _ h1 h2 (by omega) h4]
     simp
+
+/-! ### 2-D (per-channel) data -/
+
+theorem setData_rows_eq (r : List Int) (rest : List (List Int)) (start : Int) (chs : Chs)
+    (hall : ∀ r' ∈ rest, r'.length = r.length) (h4 : (r.length : Int) ≤ 2 ^ 21 - start + 1) :
+    setData (.rows (r :: rest)) start chs =
+      .ok ⟨blocksFor start (checkChannels chs).1 ((r :: rest).map (·.map bit)), (checkChannels chs).2⟩ := by
+  have ha : (rest.all fun r' => r'.length == r.length) = true := by
+    simp only [List.all_eq_true, beq_iff_eq]
+    exact hall
+  have hw : decide ((MAX_MEMORY_LEN : Int) - start + 1 < (r.length : Int)) = false := by
+    simp only [gen_memory]
+    norm_num at h4 ⊢
+    omega
+  simp only [setData, ha, if_true, hw, Bool.false_eq_true, if_false, Bool.or_false]
+
+theorem roundtrip2d (m : Mem) (r : List Int) (rest : List (List Int)) (start : Int) (cs : List Int)
+    (hc : ∀ c ∈ cs, ChOk c) (hnd : cs.Nodup) (hlen : cs.length = (r :: rest).length)
+    (hall : ∀ r' ∈ rest, r'.length = r.length)
+    (h1 : 1 ≤ start) (h2 : start ≤ 2 ^ 21) (h3 : 1 ≤ r.length) (h4 : (r.length : Int) ≤ 2 ^ 21 - start + 1) :
+    ∃ o g, setData (.rows (r :: rest)) start (some cs) = .ok o ∧
+      getData (m.execAll o.cmds) r.length start (some cs) = .ok g ∧
+      g.data = (r :: rest).map (·.map bit) ∧ o.warned = false ∧ g.warned = false := by
+  have hl4 : cs.length ≤ 4 := by
+    -- pairwise different channels in 1..4
+    have hsub : ∀ c ∈ cs, c ∈ ([1, 2, 3, 4] : List Int) := by
+      intro c hcm
+      have := hc c hcm
+      unfold ChOk at this
+      simp only [List.mem_cons, List.not_mem_nil, or_false]
+      omega
+    have := (List.subperm_of_subset hnd hsub).length_le
+    simpa using this
+  have hcc := checkChannels_id cs hc hl4
+  obtain ⟨g, hg, _, hw, hd⟩ := getData_ok (m.execAll (blocksFor start cs ((r :: rest).map (·.map bit))))
+    r.length start (some cs)
+  have hs := setData_rows_eq r rest start (some cs) hall h4
+  rw [hcc] at hs hw hd
+  refine ⟨_, g, hs, hg, ?_, rfl, ?_⟩
+  · rw [hd, getArgs_id _ _ h1 h2 (by omega) h4]
+    simp only [Int.toNat_natCast]
+    rw [Mem.execAll_blocksFor]
+    set perCh := (r :: rest).map (·.map bit) with hper
+    have hlp : perCh.length = cs.length := by rw [hper, List.length_map, hlen]
+    apply List.ext_getElem
+    · rw [List.length_map, hlp]
+    · intro i hi1 hi2
+      rw [List.getElem_map]
+      have hi : i < cs.length := by simpa using hi1
+      have hmem : (cs[i], perCh[i]) ∈ cs.zip perCh := by
+        have hz : i < (cs.zip perCh).length := by rw [List.length_zip, hlp, Nat.min_self]; exact hi
+        have := List.getElem_mem hz
+        rwa [List.getElem_zip] at this
+      have hplen : (perCh[i]).length = r.length := by
+        have hrow : (r :: rest)[i]'(by rw [← hlen]; exact hi) ∈ r :: rest := List.getElem_mem _
+        simp only [hper, List.getElem_map, List.length_map]
+        rcases List.mem_cons.mp hrow with h | h
+        · rw [h]
+        · exact hall _ h
+      have hnd' : ((cs.zip perCh).map Prod.fst).Nodup := by
+        rw [List.map_fst_zip (by omega)]
+        exact hnd
+      have := Mem.read_writePairs start (cs.zip perCh) m cs[i] perCh[i] hnd' hmem
+      rw [hplen] at this
+      rw [this]
+      simp only [hper, List.getElem_map, List.map_map]
+      apply List.map_congr_left
+      intro x _
+      exact norm_bit x
+  · rw [hw, getArgs_id _ _ h1 h2 (by omega) h4]
+    simp
+
+/-- every block lies in `[start, start + L)` when no channel gets more than `L` bits -/
+theorem blocksFor_addr (start : Int) (cs : List Int) (perCh : List (List Nat)) (L : Int)
+    (h : ∀ bits ∈ perCh, (bits.length : Int) ≤ L) :
+    ∀ c ∈ blocksFor start cs perCh, ∃ ch addr n k b, c = Command.data ch addr n k b ∧ start ≤ addr ∧
+      addr + (n : Int) ≤ start + L := by
+  intro c hc
+  unfold blocksFor at hc
+  simp only [List.mem_flatten] at hc
+  obtain ⟨l, hl, hcl⟩ := hc
+  obtain ⟨ch, _, bits, hbits, rfl⟩ := mem_zipWith _ _ _ _ hl
+  obtain ⟨addr, n, k, b, rfl, ha1, ha2⟩ := dataCmds_addr_range ch _ start c hcl
+  rw [chunks_flatten MAX_CHUNK_LEN (by decide) _ _ (le_refl _)] at ha2
+  have := h bits hbits
+  exact ⟨ch, addr, n, k, b, rfl, ha1, by omega⟩
+
+theorem pyTake_length_le' {α} (e : Int) (xs : List α) (he : 0 ≤ e) : ((pyTake e xs).length : Int) ≤ e := by
+  unfold pyTake
+  rw [if_pos he, List.length_take]
+  omega
+
+/-- with a start address inside the memory, whatever `set_data` sends (1-D or 2-D data of any length) stays inside
+    the memory -/
+theorem setData_addr (d : DataArg) (start : Int) (chs : Chs) (h1 : 1 ≤ start) (h2 : start ≤ 2 ^ 21)
+    (o : Out) (ho : setData d start chs = .ok o) :
+    ∀ c ∈ o.cmds, ∃ ch addr n k b, c = Command.data ch addr n k b ∧ 1 ≤ addr ∧ addr + (n : Int) - 1 ≤ 2 ^ 21 := by
+  have hlim : (0 : Int) ≤ (MAX_MEMORY_LEN : Int) - start + 1 := by
+    simp only [gen_memory]; norm_num at h2 ⊢; omega
+  have key : ∀ perCh : List (List Nat), (∀ bits ∈ perCh, (bits.length : Int) ≤ (MAX_MEMORY_LEN : Int) - start + 1) →
+      ∀ c ∈ blocksFor start (checkChannels chs).1 perCh,
+        ∃ ch addr n k b, c = Command.data ch addr n k b ∧ 1 ≤ addr ∧ addr + (n : Int) - 1 ≤ 2 ^ 21 := by
+    intro perCh hp c hc
+    obtain ⟨ch, addr, n, k, b, rfl, ha1, ha2⟩ := blocksFor_addr start _ perCh _ hp c hc
+    refine ⟨ch, addr, n, k, b, rfl, by omega, ?_⟩
+    simp only [gen_memory] at ha2
+    norm_num at ha2 ⊢
+    omega
+  cases d with
+  | flat xs =>
+    simp only [setData, Except.ok.injEq] at ho
+    subst ho
+    apply key
+    intro bits hb
+    rw [List.eq_of_mem_replicate hb, List.length_map]
+    split_ifs with hw
+    · exact pyTake_length_le' _ xs hlim
+    · simpa using hw
+  | rows rs =>
+    cases rs with
+    | nil =>
+      simp only [setData, Except.ok.injEq] at ho
+      subst ho
+      apply key
+      intro bits hb
+      rw [List.eq_of_mem_replicate hb]
+      simpa using hlim
+    | cons r rest =>
+      simp only [setData] at ho
+      split_ifs at ho with hall hw
+      · simp only [Except.ok.injEq] at ho
+        subst ho
+        apply key
+        intro bits hb
+        simp only [List.mem_map] at hb
+        obtain ⟨row, ⟨row0, _, rfl⟩, rfl⟩ := hb
+        rw [List.length_map]
+        exact pyTake_length_le' _ row0 hlim
+      · simp only [Except.ok.injEq] at ho
+        subst ho
+        apply key
+        intro bits hb
+        simp only [List.mem_map] at hb
+        obtain ⟨row, hrow, rfl⟩ := hb
+        rw [List.length_map]
+        have hr : (r.length : Int) ≤ (MAX_MEMORY_LEN : Int) - start + 1 := by simpa using hw
+        rcases List.mem_cons.mp hrow with h | h
+        · rw [h]; exact hr
+        · simp only [List.all_eq_true, beq_iff_eq] at hall
+          rw [hall row h]; exact hr
 
 /-! ### histories -/
 
